@@ -463,7 +463,7 @@ class Gen(object):
         if rng.random() < 0.7:
             return None
         a, b = rng.choice([(None, 1), (None, 3), (2, None), (1, 4), (2, 2), (0, 3), (5, 9), (1, 1),
-                           (None, 10 ** 12), (3, None)])
+                           (None, 10 ** 12), (3, None), (2, 10), (9, 11), (0, 12), (10, 100)])
         return [a, b]
 
     def values(self):
